@@ -12,7 +12,7 @@ LEVEL = "proof"
 TYPES = [("NULL", 10), ("PRIVATE", 65399), ("TXT", 16), ("SRV", 33), ("MX", 15), ("CNAME", 5), ("A", 1)]
 CODECS = "TSUVR"
 SHORT_NAME = b"paaaa.t.co"
-LONG_NAME = b".".join([b"p" + b"a" * 61, b"b" * 62, b"c" * 62, b"d" * 53]) + b".t.co"      # 253 characters
+LONG_NAME = b".".join([b"p" + b"a" * 61, b"b" * 62, b"c" * 62, b"d" * 59]) + b".t.co"      # 253 characters
 
 
 def contents(rng, n, style):
@@ -104,8 +104,6 @@ def run(chk):
                 chk.violation("C09 fails on the implementation: %s answer with downstream codec %s: the client extracts %d bytes that are NOT a prefix of the %d-byte payload (first difference at byte %d; payload %s..., extracted %s...)"
                               % (tname, dn, len(got), len(p), next((k for k in range(min(len(got), len(p))) if got[k] != p[k]), min(len(got), len(p))), vlib.hx(p[:12]), vlib.hx(got[:12])),
                               [wd[i], "# then on the client: " + cops[2 * (idx.index((i, buflen)))], cops[2 * (idx.index((i, buflen))) + 1][:200]], key="c09:wrong-bytes:%s%s" % (tname, dn))
-            if len(mops) < 3000 and i % 17 == 0:
-                mops.append(wd[i]); mexp.append(rs.lines[i].split(" | ")[-1] if " | " in rs.lines[i] else rs.lines[i])
     for key, d in exact.items():
         ok = sorted(n for n, e in d.items() if e)
         no = sorted(n for n, e in d.items() if not e)
@@ -122,20 +120,50 @@ def run(chk):
     chk.notes["thresholds"] = {"%s/%s/name%d/buf%d" % (k[0], k[1], len(k[2]), k[3]): max([n for n, e in d.items() if e] or [0]) for k, d in exact.items()}
     for i in (0, len(cases) // 2):
         chk.sample({"op": wd[i][:120], "impl": rs.lines[i][:160] if i < len(rs.lines) else None})
-    # correspondence: the model's write_dns bytes
+    # correspondence: the same `wd` ops through the model (same split over processes, so the rotating pseudo-TLD evolves identically), byte for byte;
+    # and the client's extraction of every datagram (`rdq`) against what the real read_dns_withq returned
     drv = chk.driver()
     diffs = None
     if drv:
-        m = vlib.run_parallel(drv, mops)
-        diffs = [i for i in range(len(mops)) if (m.lines[i].split(" | ")[-1] if i < len(m.lines) else "<no-answer>") != mexp[i]]
+        # a separate batch (the model is much slower than the C code): every (type, codec), lengths at every threshold the closed formula `fits` names and
+        # sampled ones, both names; the SAME op sequence goes to both sides (same split), so the rotating pseudo-TLD state evolves identically
+        cl = sorted(set(list(range(2, 8)) + [152, 153, 154, 155, 182, 183, 184, 185, 213, 214, 215, 216, 244, 245, 246, 251, 252, 253, 504, 505, 2463, 2464, 2465, 2466, 2559, 2560, 2960, 2961, 3071, 3072,
+                             3447, 3448, 3583, 3584, 4094, 4095, 4096] + [rng.randrange(2, 4097) for _ in range(120 if thorough else 25)]))
+        cw = ["wd %d %d %s %s %s" % (1 + (7 * n) % 65535, t, dn, vlib.hx(LONG_NAME if n % 3 == 0 else SHORT_NAME), vlib.hx(contents(rng, n, n % 4)))
+              for _, t in TYPES for dn in CODECS for n in cl]
+        cs = vlib.run_parallel(srv, cw)
+        m = vlib.run_parallel(drv, cw)
+        diffs = [i for i in range(len(cw)) if (m.lines[i] if i < len(m.lines) else "<no-answer>") != (cs.lines[i] if i < len(cs.lines) else "<none>")]
+        mops, mexp = cw, cs.lines
+        if not diffs:
+            rops, tx = [], []
+            for i, line in enumerate(cs.lines):
+                t = [e for e in line.split(" | ") if e.startswith("tx ")]
+                if t:
+                    B = 4096 if i % 2 else 65536
+                    rops.append("rdq %d %s" % (B, t[0].split()[2])); tx.append((B, t[0].split()[2]))
+            cc = vlib.run_lines(cli, ["ccfg %s %s 255 10 T 0 5 3 1 0" % (vlib.hx(b"t.co"), vlib.hx(b"pw"))] + [x for B, h in tx for x in ("start readq %d" % B, "ans " + h)])
+            m2 = vlib.run_parallel(drv, rops)
+            for i, o in enumerate(rops):
+                line = cc.lines[2 + 2 * i] if 2 + 2 * i < len(cc.lines) else ""
+                ev = line.split(" | ")
+                buf = next((e.split()[1] for e in ev if e.startswith("buf ")), "-")
+                rv = next((e.split()[1] for e in ev if e.startswith("ret ")), "?")
+                f = dict(x.split("=", 1) for x in (m2.lines[i] if i < len(m2.lines) else "").split() if "=" in x)
+                if f.get("rv") != rv or (rv.lstrip("-").isdigit() and int(rv) > 0 and f.get("buf") != buf):
+                    diffs.append(i)
+                    if len(diffs) == 1:
+                        mops, mexp, m = rops, {i: "rv=%s buf=%s" % (rv, buf)}, m2
+            chk.notes["rdq_ops_compared"] = len(rops)
+        chk.notes["wd_ops_compared"] = len(cw)
     chk.notes["correspondence_diffs"] = None if diffs is None else len(diffs)
     if bad == 0:
         if diffs is None:
             chk.violation("model driver does not build", ["# lake build iodmodel failed"], no_input=True)
         elif diffs:
             i = diffs[0]
-            chk.violation("correspondence broken (Server.WriteDns vs write_dns): %d ops differ; no wrong bytes found.\nfirst: %s\n impl: %s\n model: %s"
-                          % (len(diffs), mops[i][:160], mexp[i][:200], m.lines[i][:200] if i < len(m.lines) else None),
+            chk.violation("correspondence broken (Server.WriteDns / Client.ReadDns vs write_dns / read_dns_withq): %d ops differ; no wrong bytes found.\nfirst: %s\n impl: %s\n model: %s"
+                          % (len(diffs), mops[i][:160], str(mexp[i])[:200], m.lines[i][:200] if i < len(m.lines) else None),
                           ["# correspondence Server.WriteDns vs iodined.c write_dns no longer checks"] + [mops[j] for j in diffs[:5]], no_input=True)
         elif not proof_ok:
             chk.violation("proof obligation no longer checks: " + chk.proof_detail,
